@@ -33,7 +33,7 @@ VerNum(v) == IF v = "gfa1" THEN 1 ELSE 2
 RECURSIVE SumSet(_)
 SumSet(S) == IF S = {} THEN 0 ELSE LET x == CHOOSE x \in S : TRUE IN x + SumSet(S \ {x})
 
-Docs(v) == ValidDocs(v, KL) \cup SeedDocs(v, KS) \cup SpecialDocs(v) \cup BoundaryDocs(v)
+Docs(v) == ValidDocs(v, KL) \cup SeedDocs(v, KS) \cup SpecialDocs(v) \cup BoundaryDocs(v) \cup LateDocs(v)
 
 \* the variant that gets the full configuration product
 FullTv(d) == (SumSet(d) % NVar) + 1
@@ -41,7 +41,9 @@ IsSpecial(d) == \E i \in d : HasCp(Cat(ver)[i])
 \* documents of the boundary catalogue of custom records: the single lines get the full
 \* configuration product under one variant (real tags appended on the right)
 IsBoundary(d) == \E i \in d : i \in BoundaryIdx(ver)
-Tvs(d) == IF IsSpecial(d) \/ (IsBoundary(d) /\ ~TVALL) THEN {0, FullTv(d)}
+\* boundary documents: two consecutive variants, so that both line orders occur with tags
+Tvs(d) == IF IsSpecial(d) THEN {0, FullTv(d)}
+          ELSE IF IsBoundary(d) /\ ~TVALL THEN {0, FullTv(d), (FullTv(d) % NVar) + 1}
           ELSE IF TVALL THEN 0..NVar
           ELSE {0} \cup {((SumSet(d) + 7 * m) % NVar) + 1 : m \in 0..2}
 OrdOf(d, t) == IF (t + Cardinality(d)) % 2 = 0 THEN "asc" ELSE "desc"
